@@ -1,4 +1,4 @@
 (* extraction of the namespace model (C15); directives: ExtrOcamlBasic only *)
 From Coq Require Import ExtrOcamlBasic.
 From CssV Require Import Base Namespaces.
-Extraction "namespaces_model.ml" parse step view ser reparse run pairs.
+Extraction "namespaces_model.ml" parse step mstep view ser reparse run pairs.
